@@ -2138,3 +2138,79 @@ Proof. intros succ subject manifest _ _ kl p Hp. apply reload_is_reopen. exact H
 Lemma effect_order_final :
   gc_saves_before_sweep = true /\ gc_tests_ctx_before_remove = true /\ delete_saves_before_unlink = true.
 Proof. split; [exact gc_saves_before_sweep_ok|split; [exact gc_tests_ctx_before_remove_ok|exact delete_saves_before_unlink_ok]]. Qed.
+
+(* ---- consequences stated end to end ---- *)
+
+(* the outcome of Delete and of GC does not depend on Go's map iteration orders *)
+Lemma order_independent_final : forall succ subject manifest,
+  acyclic succ -> subject_listed succ subject ->
+  (forall st x, wf st -> autogc st = true -> In x (blobs st) ->
+     forall o1 o2, reorders o1 -> reorders o2 ->
+     let a := fst (delete succ subject manifest cfg_fixed o1 st x) in
+     let b := fst (delete succ subject manifest cfg_fixed o2 st x) in
+     (forall y, In y (blobs a) <-> In y (blobs b)) /\ (forall y, In y (gnodes a) <-> In y (gnodes b)) /\
+     (forall t n, In (RTag t, n) (idx a) <-> In (RTag t, n) (idx b))) /\
+  (forall kl st o1 o2, same_elements o1 (candidates (idx st)) -> same_elements o2 (candidates (idx st)) ->
+     let a := fst (gc succ subject manifest cfg_fixed kl o1 st) in
+     let b := fst (gc succ subject manifest cfg_fixed kl o2 st) in
+     (forall y, In y (blobs a) <-> In y (blobs b)) /\ (forall y, In y (gnodes a) <-> In y (gnodes b)) /\
+     (forall t n, In (RTag t, n) (idx a) <-> In (RTag t, n) (idx b))).
+Proof.
+  intros succ subject manifest H1 H2. split.
+  - intros st x Hw Ha Hx o1 o2 Ho1 Ho2 a b.
+    destruct (delete_exact_final succ subject manifest H1 H2 st x Hw Ha Hx o1 Ho1) as (s1 & E1 & B1 & G1 & _ & _ & T1 & _).
+    destruct (delete_exact_final succ subject manifest H1 H2 st x Hw Ha Hx o2 Ho2) as (s2 & E2 & B2 & G2 & _ & _ & T2 & _).
+    unfold a, b. rewrite E1, E2. cbn [fst]. split; [|split].
+    + intro y. rewrite B1, B2. tauto.
+    + intro y. rewrite G1, G2. tauto.
+    + intros t n. rewrite T1, T2. tauto.
+  - intros kl st o1 o2 Ho1 Ho2 a b.
+    destruct (gc_exact succ subject manifest H1 H2 kl o1 st Ho1) as (s1 & E1 & G1 & B1 & T1 & _).
+    destruct (gc_exact succ subject manifest H1 H2 kl o2 st Ho2) as (s2 & E2 & G2 & B2 & T2 & _).
+    unfold a, b. rewrite E1, E2. cbn [fst]. split; [|split].
+    + intro y. rewrite B1, B2. tauto.
+    + intro y. rewrite G1, G2. tauto.
+    + intros t n. rewrite T1, T2. tauto.
+Qed.
+
+(* a tagged descriptor that is stored stays stored and keeps its tags under every Delete of
+   another descriptor (AutoGC on or off, target stored or not, every iteration order), and
+   under every GC, complete or cancelled, together with everything reachable from it *)
+Lemma tagged_kept_final : forall succ subject manifest,
+  acyclic succ -> subject_listed succ subject ->
+  forall st n t, wf st -> In (RTag t, n) (idx st) -> In n (blobs st) ->
+  (forall x ord, reorders ord -> x <> n ->
+     let st' := fst (delete succ subject manifest cfg_fixed ord st x) in
+     In n (blobs st') /\ In (RTag t, n) (idx st')) /\
+  (forall kl ords order k, same_elements ords (candidates (idx st)) ->
+     let s1 := fst (gc succ subject manifest cfg_fixed kl ords st) in
+     let s2 := fst (gc_cancel succ subject manifest cfg_fixed kl ords order k st) in
+     forall y, Reach succ (blobs st) n y ->
+       In y (blobs s1) /\ In y (blobs s2) /\ In (RTag t, n) (idx s1) /\ In (RTag t, n) (idx s2)).
+Proof.
+  intros succ subject manifest H1 H2 st n t Hw Ht Hn. split.
+  - intros x ord Ho Hne st'. unfold st'.
+    destruct (in_dec Nat.eq_dec x (blobs st)) as [Hx|Hx].
+    + destruct (autogc st) eqn:Ha.
+      * destruct (delete_exact_final succ subject manifest H1 H2 st x Hw Ha Hx ord Ho)
+          as (s1 & E1 & B1 & _ & _ & _ & T1 & _).
+        rewrite E1. cbn [fst]. split; [|apply T1; split; [assumption|congruence]].
+        apply B1. split; [assumption|]. intro HG.
+        pose proof (gone_untagged succ subject manifest st x n HG ltac:(congruence)) as Hf.
+        assert (is_tagged st n = true) by (apply is_tagged_spec; eauto). congruence.
+      * destruct (delete_plain succ subject manifest st x ord Ho Ha Hx) as (s1 & E1 & B1 & _ & I1 & _).
+        rewrite E1. cbn [fst]. rewrite B1, I1. split.
+        -- apply removeb_In. split; [assumption|congruence].
+        -- apply del_idx_In. left. split; [assumption|cbn; congruence].
+    + rewrite (delete_absent_state succ subject manifest st x ord cfg_fixed Hx). cbn [blobs idx]. split.
+      * rewrite removeb_absent; assumption.
+      * apply del_idx_In. left. split; [assumption|cbn; congruence].
+  - intros kl ords order k Ho s1 s2 y Hy.
+    assert (HL : Live succ subject manifest st y) by (eapply L_tag; eauto).
+    destruct (gc_exact succ subject manifest H1 H2 kl ords st Ho) as (a & E1 & _ & B1 & T1 & _).
+    destruct (gc_cancel_spec succ subject manifest H1 H2 kl ords order k st Ho) as (c & E2 & Ei & _ & _ & B2 & _).
+    unfold s1, s2. rewrite E1, E2. cbn [fst].
+    assert (Hyb : In y (blobs st)) by (eapply Reach_in; eauto).
+    split; [apply B1; tauto|]. split; [apply B2; tauto|]. split; [now apply T1|].
+    rewrite Ei, E1. cbn [fst]. now apply T1.
+Qed.
